@@ -125,6 +125,9 @@ func (fs *fsMutable) deleteNSEntry(p fuseops.InodeID, c string) error {
 		// Delete the child dir
 		delete(fs.readDirMap, cLE.iNode)
 		pNode.attr.Nlink--
+		cNode.attr.Nlink = 0
+	} else {
+		cNode.attr.Nlink--
 	}
 
 	fs.lookupTree, _, _ = fs.lookupTree.Delete(lk)
@@ -735,17 +738,9 @@ func getPathToBackingFile(iNode fuseops.InodeID) string {
 }
 
 func shouldDelete(n *nodeEntry) bool {
-	// LookupCount should be zero.
-	if n.attr.Mode.IsDir() {
-		if n.refCount == 0 {
-			return true
-		}
-	} else {
-		if n.refCount == 0 && n.attr.Nlink == 0 {
-			return true
-		}
-	}
-	return false
+	// LookupCount should be zero and the node must not be linked in the namespace any more:
+	// the kernel may forget a file or directory that is still linked (cache pressure) and look it up again later.
+	return n.refCount == 0 && n.attr.Nlink == 0
 }
 
 type commitChans struct {
